@@ -66,6 +66,7 @@ type Shard struct {
 	Notes      []string
 	Data       map[string]interface{} // free-form per-shard data for Finalize
 	deadline   time.Time
+	announce   *os.File
 	curCase    atomic.Value // *Case being executed (for the hang watchdog)
 	progress   int64
 }
@@ -75,6 +76,12 @@ type Shard struct {
 func (s *Shard) Begin(c *Case) {
 	s.curCase.Store(c)
 	atomic.AddInt64(&s.progress, 1)
+	if s.announce != nil {
+		// crash-attribution re-run: persist the case before executing it (a fatal error cannot be recovered)
+		b, _ := json.Marshal(c)
+		s.announce.Truncate(0)
+		s.announce.WriteAt(b, 0)
+	}
 }
 
 // HangSeconds is far above any legitimate case duration (micro- to milliseconds).
@@ -164,6 +171,9 @@ func RunShard(prop, tier string, idx, n int, dir string) {
 	if v := os.Getenv("VERIF_DEADLINE_S"); v != "" {
 		sec, _ := strconv.Atoi(v)
 		s.deadline = time.Now().Add(time.Duration(sec) * time.Second)
+	}
+	if f := os.Getenv("VERIF_ANNOUNCE"); f != "" {
+		s.announce, _ = os.OpenFile(f, os.O_CREATE|os.O_WRONLY|os.O_TRUNC, 0o644)
 	}
 	done := make(chan struct{})
 	hung := make(chan *Case, 1)
@@ -303,10 +313,30 @@ func Supervise(self, prop, tier, verifDir string, nshards int) int {
 		var so shardOut
 		b, ferr := os.ReadFile(filepath.Join(dir, fmt.Sprintf("shard%d.json", i)))
 		if r.err != nil || ferr != nil {
-			// a dead worker: harness error unless the property attributes it (props that expect fatal errors use
-			// their own supervised workers)
-			fmt.Fprintf(os.Stderr, "shard %d of %s failed: %v\n%s\n", i, prop, r.err, tail(r.log, 4000))
-			return 2
+			// a dead worker (fatal error such as stack exhaustion or concurrent map writes, which recover() cannot
+			// catch): re-run the shard announcing every case before it is executed and attribute the death to the
+			// last announced case.
+			ann := filepath.Join(dir, fmt.Sprintf("announce%d.json", i))
+			cmd := exec.Command(self, "shard", prop, tier, strconv.Itoa(i), strconv.Itoa(nshards), dir)
+			cmd.Env = append(os.Environ(), "GOMAXPROCS=2", "VERIF_ANNOUNCE="+ann)
+			out2, err2 := cmd.CombinedOutput()
+			ab, _ := os.ReadFile(ann)
+			var cc Case
+			if err2 == nil || json.Unmarshal(ab, &cc) != nil {
+				fmt.Fprintf(os.Stderr, "shard %d of %s failed: %v (not reproducible with announcements: %v)\n%s\n", i, prop, r.err, err2, tail(r.log, 4000))
+				return 2
+			}
+			reason := "process died"
+			for _, l := range strings.Split(string(out2), "\n") {
+				if strings.HasPrefix(l, "fatal error:") || strings.HasPrefix(l, "runtime:") {
+					reason = l
+					break
+				}
+			}
+			m.AddViolation(Violation{Sig: prop + "/crash", Msg: "the process executing this case died (" + reason + "); a request like this takes the whole service down", Case: &cc})
+			m.Exhaustive = false
+			m.Notes = append(m.Notes, fmt.Sprintf("shard %d died at the recorded case; the rest of its share was not explored", i))
+			continue
 		}
 		if err := json.Unmarshal(b, &so); err != nil {
 			fmt.Fprintf(os.Stderr, "shard %d: %v\n", i, err)
